@@ -37,7 +37,7 @@ ASSUMPTIONS = [
     "revision-5/6 passwords are limited to strings on which SASLprep reduces to NFKC; R<=4 *correct* passwords are Latin-1",
     "V4 files use the same crypt filter for strings and streams (the library reports others as unsupported, a documented outcome)",
 ]
-PROBES = ["V1R2 RC4-40", "V2R3 RC4", "V4R4 V2", "V4R4 AESV2", "V4R4 Identity", "V5R5 AESV3", "V5R6 AESV3", "owner password differs", "empty user password", "non-ASCII password", "long password", "no ID", "EncryptMetadata false", "object stream", "generation > 0", "object number above 65535", "string inside stream dictionary", "eviction happened", "wrong password non-Latin-1"]
+PROBES = ["V1R2 RC4-40", "V2R3 RC4", "V4R4 V2", "V4R4 AESV2", "V4R4 Identity", "V5R5 AESV3", "V5R6 AESV3", "owner password differs", "empty user password", "non-ASCII password", "long password", "no ID", "EncryptMetadata false", "object stream", "generation > 0", "object number above 65535", "string inside stream dictionary", "eviction happened", "wrong password non-Latin-1", "two encrypted documents read alternately"]
 TIERS = {
     "quick": {"batches": 16, "runs": 400, "budget_s": 50},
     "thorough": {"batches": 128, "runs": 500, "budget_s": 1200},
@@ -62,7 +62,7 @@ def setup():
 
 
 PW_POOL = ["", "user", "owner", "a", "pass word", "pässwörd", "0123456789012345678901234567890123456789", "é", "x" * 33, "Secret-1"]
-PW_POOL_UNI = PW_POOL + ["абв", "パス", "naïve café " * 12]
+PW_POOL_UNI = PW_POOL + ["абв", "パス", "naïve café " * 12, "é" * 64, "x" + "é" * 70, "a" * 126 + "ж"]
 
 
 def gen_bytes(t, label):
@@ -295,6 +295,33 @@ def run(tape, ctx, item=None):
             seams.CHUNK.policy = None
             seams.EVICT.set(None)
         scen.append((who, pdesc, caching, bool(ev), order))
+    # ---- two encrypted documents with the same object numbers but different keys, read alternately
+    if t.coin(30, 100, "second.doc") and not devs:
+        cfg2 = gen_config(t, ctx)
+        h2 = crypt.Handler(cfg2["v"], cfg2["r"], cfg2["keybits"], cfg2["cfm"], cfg2["user"], cfg2["owner"], cfg2["p"], cfg2["docid"], cfg2["em"], rnd)
+        te2 = {b"Encrypt": h2.encrypt_dict()}
+        if cfg2["docid"] is not None:
+            te2[b"ID"] = [Str(cfg2["docid"]), Str(cfg2["docid"])]
+        enc2 = docs.build_pdf(objects, 1, info=7, form=form, pack=pack, gens=gens, encrypt=h2, trailer_extra=te2).getvalue()
+        ctx.probe("two encrypted documents read alternately")
+        try:
+            da = PDFDocument(PDFParser(BytesIO(enc_pdf)), password=cfg["user"])
+            db = PDFDocument(PDFParser(BytesIO(enc2)), password=cfg2["user"])
+            for i in t.shuffle(sorted(objects), "second.order"):
+                for which, dd in (("first", da), ("second", db)):
+                    mism = []
+                    model = objects[i]
+                    got = dd.getobj(i)
+                    if isinstance(model, Stream):
+                        model = Stream({k: v for k, v in model.dict.items() if k != b"Length"}, model.raw)
+                        if hasattr(got, "attrs"):
+                            got.attrs.pop("Length", None)
+                    match(model, got, None, "obj%d" % i, mism, lambda m: zlib.decompress(m.raw) if m.dict.get(b"Filter") == Name(b"FlateDecode") else m.raw)
+                    for path, k, detail, _ in mism:
+                        devs.append(Dev("C10:interleaved-documents:wrong-%s" % k, "%s document, at %s: %s; first: %s; second: V%d R%d %s" % (which, path, detail, desc, cfg2["v"], cfg2["r"], cfg2["cfm"])))
+        except Exception as e:
+            devs.append(Dev("C10:interleaved-documents:raise:%s@%s" % (type(e).__name__, where(e)), "%r; %s" % (e, desc)))
+        scen.append(("second", cfg2["v"], cfg2["r"], cfg2["cfm"]))
     seen = {}
     for d in devs:
         seen.setdefault(d.sig, d)
